@@ -1,6 +1,6 @@
 (* Property C18 - PKGNAME decomposition is lossless and consistent across the
    library.  Statements only. *)
-Require Import PV.Base PV.Dec PV.Dewey PV.DeweySpec PV.DeweyProofs PV.Pattern PV.PkgNameProofs.
+Require Import PV.Base PV.Dec PV.Dewey PV.DeweySpec PV.DeweyProofs PV.Pattern PV.PkgNameProofs PV.Summary PV.SummaryPkg.
 Require Import Coq.Strings.String.
 Import Coq.Lists.List ListNotations.
 Local Open Scope N_scope.
@@ -20,11 +20,17 @@ Theorem C18_revision : forall b p ds, all_digits ds -> mem 45 (p ++ 110 :: 98 ::
   pn_revision (pkgname_new n) = Some (nbval ds) /\ revn (mkv (pn_version (pkgname_new n))) = nbval ds.
 Proof. exact pkgname_revision. Qed.
 (* nbval is the number written by the digits when it fits an i64 *)
-Theorem C18_nbval : forall ds, ds <> [] -> (value ds <= i64max)%Z -> nbval ds = value ds.
+Theorem C18_nbval : forall ds, ds <> [] -> (Base.value ds <= i64max)%Z -> nbval ds = Base.value ds.
 Proof. intros ds H1 H2. unfold nbval. destruct ds; [congruence|]. apply Z.leb_le in H2. rewrite H2. reflexivity. Qed.
 Theorem C18_no_nb : forall n, (forall a c, pn_version (pkgname_new n) <> a ++ 110 :: 98 :: c) ->
   pn_revision (pkgname_new n) = None.
 Proof. exact pkgname_no_nb. Qed.
+
+(* the pkg_summary accessors give the same split for names with non-empty base and version *)
+Theorem C18_summary_agrees : forall e n, e Pkgname = Some (VS n) ->
+  pn_base (pkgname_new n) <> [] -> pn_version (pkgname_new n) <> [] ->
+  sum_pkgbase e = Some (pn_base (pkgname_new n)) /\ sum_pkgversion e = Some (pn_version (pkgname_new n)).
+Proof. exact summary_split_agrees. Qed.
 
 Example C18_example :
   pkgname_new (lit "mktool-1.3.2nb2") = mkpkgname (lit "mktool") (lit "1.3.2nb2") (Some 2%Z) /\
